@@ -50,7 +50,7 @@ func main() {
 			"Group lag: trial = one ticker (d 100-300 us, jitter 0) that nobody reads, stopped at its second firing (aimed by the pause point ticker.fire plus 0-5 us, or by time), channel emptied right after Stop, " +
 			"looked at again >= 20 ms later; evaluation = one such look.")
 		r.Assume("elapsed time is judged only as a lower bound (nil from SleepContext => elapsed >= d; tick timestamps >= d - jitter apart); no result is ever judged for arriving late")
-		r.Assume("scenario classes stay away from deadline ~ d: 'exactly when the deadline is closer than d' is decided only for deadline <= d/8 (must be DeadlineTooSoonError) and deadline >= 2000 d (must not be); in the latter class an error is judged only if the whole scenario, from before the context was made, took less than deadline - d")
+		r.Assume("'DeadlineTooSoonError exactly when the deadline is closer than d': the nine scenario classes stay away from deadline ~ d (deadline <= d/8 must give the error, deadline >= 2000 d must not, the latter judged only if the whole scenario took less than deadline - d); right next to d (group near, deadline = d - 1ms .. d + 5ms) only stamps are compared: the error is refuted if the deadline was still >= d away on a stamp taken after the call returned, its absence is refuted if the deadline was closer than d on a stamp taken before the call; in the band between the two stamps nothing is judged")
 		r.Assume("'returns the context's error if the context ends first' is judged for every d > 0: a stamp t0 is taken before SleepContext is called, the party that ends the context stamps tc after cancel() has returned (tc = 0 for a context that had already ended; for an expiry a watcher stamps after it has seen <-ctx.Done()); if tc - t0 < d the context ended first (the timer is armed after t0 and cannot fire before t0 + d) and the result must be ctx.Err(); otherwise nil (after >= d) and ctx.Err() are both accepted")
 		r.Assume("a context whose deadline has already expired: with d >= 1 h the result must be DeadlineTooSoonError (the deadline is closer than d by any reading, for every d up to MaxInt64 and every deadline back to time.Time{}); with d < 1 h ctx.Err() = context.DeadlineExceeded is accepted as well (both clauses of the statement apply)")
 		r.Assume("'the context's error' is ctx.Err() (context.Canceled / context.DeadlineExceeded), not context.Cause(ctx): contexts ended through WithCancelCause / WithTimeoutCause / WithDeadlineCause with an application cause (also one that wraps the sentinel) must not get the cause back")
@@ -64,7 +64,7 @@ func main() {
 			name string
 			run  func(*vkit.Report)
 		}{{"regress", regress}, {"sleep+extreme", sleepCases}, {"gate", gateCases}, {"stress", stressCases}, {"ticker-extreme", tickerExtremes},
-			{"pool", poolCases}, {"ended-first", endedFirstCases}, {"lag", lagCases}, {"outside", outside}} {
+			{"near", nearCases}, {"pool", poolCases}, {"ended-first", endedFirstCases}, {"lag", lagCases}, {"outside", outside}} {
 			t := time.Now()
 			g.run(r)
 			r.Max("wall ms per group (slowest variant)", g.name, int(time.Since(t)/ms))
@@ -79,6 +79,8 @@ func main() {
 		r.Floor("SleepContext with d >= 1<<62 ns", r.Table("sleep", "calls with d >= 1<<62 ns"), 60)
 		r.Floor("already-ended context with d <= 1 ms, called under load", r.Table("ended-first", "already-ended context: calls judged"), 50000)
 		r.Floor("cancel mid-sleep with d <= 80 us: trials in which cancel() returned before start + d", r.Table("ended-first", "cancel mid-sleep: trials with cancel returned before start+d (judged strictly)"), 2000)
+		r.Floor("near d, rule (ii): calls begun with the deadline closer than d", r.Table("near", "calls begun with the deadline closer than d (DeadlineTooSoonError demanded)"), 1000)
+		r.Floor("near d, rule (i): calls begun with the deadline >= d away", r.Table("near", "calls begun with the deadline >= d away that did not answer DeadlineTooSoonError (a prompt one would have been refuted)"), 1000)
 		r.Floor("pool rounds (SleepContext ended at d+-30us, then plain sleeps)", r.Table("pool", "rounds"), 2000)
 		r.Floor("lagging-receiver tickers stopped at the second firing and looked at again", r.Table("lag", "stopped tickers looked at again >= 20 ms after the drain"), 5000)
 		r.Floor("JitterTicker lives with d >= MaxInt64/4", r.Table("ticker", "lives with d >= MaxInt64/4"), 8)
